@@ -307,3 +307,105 @@ func TestC19_Histories(t *testing.T) {
 		judge(rt, "c19", c, checkC19)
 	})
 }
+
+// TestC19_Concurrent: the value a decoder produces is a function of the input bytes alone - also when other
+// goroutines are decoding other inputs into their own variables at the same moment. Every goroutine decodes
+// valid and invalid inputs of its own; verdict and decoded value equal what the same input gives sequentially.
+type c19ConcCase struct {
+	G      int `json:"g"`
+	Rounds int `json:"rounds"`
+}
+
+func checkC19Concurrent(c c19ConcCase) error {
+	type expect struct {
+		ok   bool
+		dump string
+	}
+	exp := map[string]expect{}
+	key := func(k refcose.Kind, w []byte) string { return fmt.Sprintf("%d/%x", k, w) }
+	inputs := func(i int) ([]refcose.Kind, [][]byte) {
+		kinds, wires := c06DistinctInputs(i)
+		var ks []refcose.Kind
+		var ws [][]byte
+		for j := range wires {
+			if kinds[j] == -1 {
+				continue
+			}
+			ks, ws = append(ks, kinds[j]), append(ws, wires[j])
+			// and a damaged sibling
+			bad := append([]byte{}, wires[j]...)
+			bad[len(bad)/2] ^= 0x5a
+			ks, ws = append(ks, kinds[j]), append(ws, bad)
+		}
+		return ks, ws
+	}
+	for i := 0; i < 97; i++ {
+		ks, ws := inputs(i)
+		for j := range ws {
+			v, err := decodeAny(ks[j], ws[j])
+			e := expect{ok: err == nil}
+			if err == nil {
+				e.dump = bridge.Dump(v)
+			}
+			exp[key(ks[j], ws[j])] = e
+		}
+	}
+	var wg sync.WaitGroup
+	var mu sync.Mutex
+	var first error
+	start := make(chan struct{})
+	for g := 0; g < c.G; g++ {
+		wg.Add(1)
+		go func(g int) {
+			defer wg.Done()
+			defer func() {
+				if r := recover(); r != nil {
+					mu.Lock()
+					if first == nil {
+						first = finding("concurrent/panic", "a decoder panicked while other goroutines were decoding their own inputs: %v", r)
+					}
+					mu.Unlock()
+				}
+			}()
+			<-start
+			for r := 0; r < c.Rounds; r++ {
+				ks, ws := inputs((g*31 + r) % 97)
+				for j := range ws {
+					v, err := decodeAny(ks[j], ws[j])
+					e := exp[key(ks[j], ws[j])]
+					if (err == nil) != e.ok || (err == nil && bridge.Dump(v) != e.dump) {
+						mu.Lock()
+						if first == nil {
+							first = finding("concurrent/result-differs", "goroutine %d: decoding %x (%v) while other goroutines decode their own inputs gives err=%v; sequentially accepted=%v", g, ws[j], ks[j], err, e.ok)
+						}
+						mu.Unlock()
+						return
+					}
+				}
+			}
+		}(g)
+	}
+	close(start)
+	wg.Wait()
+	if first != nil {
+		return first
+	}
+	stats.Class("concurrent-decodes-of-own-inputs")
+	return nil
+}
+
+func init() { register("c19conc", checkC19Concurrent) }
+
+func TestC19_Concurrent(t *testing.T) {
+	begin(t, "C19", "concurrent")
+	rounds := 400
+	if tierThorough() {
+		rounds = 8000
+	}
+	for _, g := range []int{2, 4, 8, 16} {
+		c := c19ConcCase{G: g, Rounds: rounds}
+		stats.EvalN(g * rounds * 10)
+		stats.NTBytes([]byte(fmt.Sprint(c)))
+		judge(t, "c19conc", c, checkC19Concurrent)
+	}
+}
